@@ -18,6 +18,7 @@ import time
 from six.moves.urllib.parse import urlparse
 
 from .frame import Frame
+from .opcode import Opcode
 from . import errors
 from . import events
 from . import proxy
@@ -75,7 +76,7 @@ class WebsocketSession(object):
         """Force the socket to disconnect."""
         raise _ForceDisconnect()
 
-    def write(self, data):
+    def write(self, data, closing=False):
         """Send raw data."""
         with self._lock:
             if self._sock is None:
@@ -99,11 +100,16 @@ class WebsocketSession(object):
                 raise errors.TransportFail(
                     'socket error; {}', error
                 )
+            if closing:
+                # A close frame was sent. Flag the websocket as closing
+                # while we still have the lock, so that no other thread
+                # can send anything after it.
+                self.websocket.state.closing = True
 
     def send(self, opcode, data):
         """Send a WS Frame."""
         frame = Frame(opcode, payload=bytearray(data))
-        self.write(frame.to_bytes())
+        self.write(frame.to_bytes(), closing=opcode == Opcode.CLOSE)
         log.debug(' SRV <- CLI : %r', frame)
 
     def send_compressed(self, opcode, data):
